@@ -24,6 +24,8 @@ outside this range the code falls back to comparing with `now` itself. -/
 def nowRepresentable (now : Int) : Prop :=
   CHRONO_MIN ≤ now - ALLOWED_MISMATCH ∧ now + ALLOWED_MISMATCH ≤ CHRONO_MAX
 
+instance (now : Int) : Decidable (nowRepresentable now) := by unfold nowRepresentable; infer_instance
+
 /-- The credential-scope rule (rules 12 and 13) on its own. -/
 def scopeCheck (a : Authenticator) (region service : Bytes) : Outcome Unit :=
   match splitOn 0x2F a.credential with
